@@ -406,27 +406,35 @@ theorem substTy_noParam (σ : Subst) (t : Ty) : noParam t = true → substTy σ 
     simp [substTys, ih1 h.1, ih2 h.2]
   all_goals intros; simp [substTy]
 
-theorem selfTo_subst (σ : Subst) (self t : Ty) (h : noParam t = true) :
-    substTy σ (selfTo self t) = selfTo (substTy σ self) t := by
-  unfold selfTo
-  by_cases hs : isSelf t = true
-  · simp [hs]
-  · simp [hs, substTy_noParam σ t h]
-
-theorem map_selfTo_subst (σ : Subst) (self : Ty) (ps : List Ty) (h : noParams ps = true) :
-    substTys σ (ps.map (selfTo self)) = ps.map (selfTo (substTy σ self)) := by
-  induction ps with
-  | nil => simp [substTys]
-  | cons p ps ih =>
-    simp only [noParams, Bool.and_eq_true] at h
-    simp [substTys, selfTo_subst σ self p h.1, ih h.2]
-
-theorem replaceSelf_subst (σ : Subst) (self t : Ty) (h : noParam t = true) :
+theorem replaceSelf_subst (σ : Subst) (self t : Ty) : noParam t = true →
     substTy σ (replaceSelf self t) = replaceSelf (substTy σ self) t := by
-  cases t <;> simp only [replaceSelf] <;> try exact selfTo_subst σ self _ h
-  rename_i ps r
-  simp only [noParam, Bool.and_eq_true] at h
-  simp [substTy, map_selfTo_subst σ self ps h.1, selfTo_subst σ self r h.2]
+  apply Ty.rec
+    (motive_1 := fun t => noParam t = true → substTy σ (replaceSelf self t) = replaceSelf (substTy σ self) t)
+    (motive_2 := fun ts => noParams ts = true → substTys σ (replaceSelfs self ts) = replaceSelfs (substTy σ self) ts)
+  case param => intro n h; simp [noParam] at h
+  case struct =>
+    intro n _
+    by_cases hn : (n == "Self") = true
+    · simp [replaceSelf, hn]
+    · simp [replaceSelf, hn, substTy]
+  case tuple => intro ts ih h; simp [replaceSelf, substTy, ih (by simpa [noParam] using h)]
+  case app =>
+    intro t ts ih1 ih2 h
+    simp only [noParam, Bool.and_eq_true] at h
+    simp [replaceSelf, substTy, ih1 h.1, ih2 h.2]
+  case array => intro n e ih h; simp [replaceSelf, substTy, ih (by simpa [noParam] using h)]
+  case vec => intro e ih h; simp [replaceSelf, substTy, ih (by simpa [noParam] using h)]
+  case ref => intro e ih h; simp [replaceSelf, substTy, ih (by simpa [noParam] using h)]
+  case func =>
+    intro ps r ih1 ih2 h
+    simp only [noParam, Bool.and_eq_true] at h
+    simp [replaceSelf, substTy, ih1 h.1, ih2 h.2]
+  case nil => intro _; simp [replaceSelfs, substTys]
+  case cons =>
+    intro t ts ih1 ih2 h
+    simp only [noParams, Bool.and_eq_true] at h
+    simp [replaceSelfs, substTys, ih1 h.1, ih2 h.2]
+  all_goals intros; simp [replaceSelf, substTy]
 
 theorem lookupTy_mem {l : List (String × Ty)} {x : String} {t : Ty} (h : lookupTy l x = some t) : (x, t) ∈ l := by
   induction l with
